@@ -99,7 +99,7 @@ impl Local {
             }));
         }
     }
-    fn merge(&mut self, o: Local) {
+    pub fn merge(&mut self, o: Local) {
         self.evals += o.evals;
         self.steered += o.steered;
         self.nontrivial_counted += o.nontrivial_counted;
